@@ -20,7 +20,8 @@ EXPLANATION = ("T1 proves, relative to a trusted hyper-h2 contract and for every
                "touched for that id only, DATA before response headers / unexpected or malformed HEADERS are connection errors that reach "
                "every open stream once. HttpLayer.event_to_child/_handle_event/make_stream: ReceiveHttp goes to the stream of its id only "
                "(unknown ids are dropped), SendHttp to the handler of its connection only, completions return to the issuing stream, new "
-               "request headers create exactly one stream. BufferedH2Connection: an operation on stream X reads and writes only X's buffer and X's "
+               "request headers create exactly one stream. HttpStream.handle_protocol_error drops exactly its own stream id, last, once, even when "
+               "the receiver of SendHttp rewrites the event's stream id in place (as Http2Client does). BufferedH2Connection: an operation on stream X reads and writes only X's buffer and X's "
                "queued trailers and hands frames to hyper-h2 for X only; bytes are conserved in order (wire ++ buffer = old buffer ++ new data), "
                "never more than the credit, as much as the credit allows on a window update; trailers go out at once when X has nothing buffered "
                "(whatever other streams have buffered), otherwise strictly after X's data and they end the stream; the END_STREAM flag stays "
@@ -1014,6 +1015,75 @@ def s_buf_receive(vc):
             vc.ensure("unrelated.nothing_flushed_or_dropped", flushed == [] and len(bx) == 1 and len(by) == 1)
 
 
+# ---------------------------------------------------------------------------------------------
+# HttpStream.handle_protocol_error: a stream that dies removes itself (and nothing else) from the HttpLayer
+
+@scenario("HttpStream.handle_protocol_error", functions=[HS + ".handle_protocol_error", HS + ".check_killed"], asserts_are_obligations=True)
+def s_protocol_error(vc):
+    """SendHttp hands the *same event object* to the connection layer, and Http2Client/Http3Client rewrite its stream_id in
+    place to the upstream id (modelled in on_yield). Whatever they do to the event: the stream dropped at the end is this
+    HttpStream's own id, exactly once, as the last command."""
+    from mitmproxy.proxy.layers.http._events import ErrorCode
+    side = vc.case("error_from", ["client", "server"])
+    cstate = vc.case("client_state", ["state_stream_request_body", "state_done", "state_consume_request_body", "state_errored"])
+    sstate = vc.case("server_state", ["state_wait_for_response_headers", "state_consume_response_body", "state_done", "state_errored", "state_uninitialized"])
+    killed = vc.case("flow_killed_by_addon", [False, True])
+    MY_ID, UPSTREAM_ID = 7, 3   # 3 is also the client id of another, healthy stream
+    client, server = mk_client(vc), mk_server(vc)
+    ctx = mk_context(vc, client, server, mk_options(vc, proxy_debug=False))
+    flow_ = vc.new("mitmproxy.http:HTTPFlow", client_conn=client, server_conn=server, request=None, response=None, error=None, live=True, websocket=None,
+                   id="flow-id", intercepted=False, marked="", is_replay=None, metadata=vc.dict([]), comment="", timestamp_created=1.0, _backup=None)
+    stream = vc.new(HS, context=ctx, debug=None, _paused=None, _paused_event_queue=vc.deque([]), flow=flow_, stream_id=MY_ID, child_layer=None)
+    stream.client_state = vc.bound(stream, HS + "." + cstate)
+    stream.server_state = vc.bound(stream, HS + "." + sstate)
+    msg = vc.sym_str("message")
+    vc.assume(len_(msg) > 0)
+    from mitmproxy import flow as _flow0
+    vc.assume(msg != _flow0.Error.KILLED_MESSAGE)   # the text mitmproxy reserves for flows killed by an addon (that path: flow_killed_by_addon)
+    ev = vc.new(EV + (":RequestProtocolError" if side == "client" else ":ResponseProtocolError"), stream_id=MY_ID, message=msg,
+                code=ErrorCode.CANCEL if side == "client" else ErrorCode.GENERIC_SERVER_ERROR)
+    sends, hooks = [], []
+
+    def on_yield(cmd):
+        if is_cmd(cmd, "SendHttp"):
+            sends.append((cmd.event, cmd.connection, conc(cmd.event.stream_id)))
+            if cmd.connection is server:
+                cmd.event.stream_id = UPSTREAM_ID       # Http2Client._handle_event: event.stream_id = ours
+        elif is_cmd(cmd, "HttpErrorHook"):
+            hooks.append(cmd)
+            if killed:
+                from mitmproxy import flow as _flow
+                cmd.flow.error = vc.new("mitmproxy.flow:Error", msg=_flow.Error.KILLED_MESSAGE, timestamp=1.0)
+
+    out = vc.call(HS + ".handle_protocol_error", stream, ev, on_yield=on_yield)
+    vc.ensure("no_exception", out.ok)
+    if not out.ok:
+        return
+    tr = out.trace
+    upstream_contact = side == "client" and cstate in ("state_stream_request_body", "state_done") and sstate not in ("state_done", "state_errored")
+    need_hook = not (cstate == "state_errored" or sstate in ("state_done", "state_errored"))
+    to_server = [x for x in sends if x[1] is server]
+    to_client = [x for x in sends if x[1] is client]
+    # a client error is passed on upstream exactly when the request was (being) sent there and the exchange is not over
+    vc.ensure("client_error.forwarded_upstream_iff_request_was_sent", len(to_server) == (1 if upstream_contact else 0) and all(x[0] is ev and x[2] == MY_ID for x in to_server))
+    vc.ensure("error_hook.at_most_once_iff_exchange_unfinished", len(hooks) == (1 if need_hook else 0) and all(h.flow is flow_ for h in hooks))
+    drops = [c for c in tr if is_cmd(c, "DropStream")]
+    if killed and need_hook:
+        # killed inside the error hook: the kill path answers the client and ends the flow (C11); no second teardown
+        vc.ensure("killed.client_told_once", len(to_client) == 1 and vc.eq(flow_.live, False) is not False)
+        vc.ensure("killed.at_most_own_stream_dropped", all_(vc.eq(d.stream_id, MY_ID) for d in drops))
+        return
+    vc.ensure("drop.exactly_once_and_last", len(drops) == 1 and tr[-1] is drops[0])
+    if len(drops) == 1:
+        vc.ensure("drop.is_this_stream_whatever_happened_to_the_event_object", vc.eq(drops[0].stream_id, MY_ID))
+    if side == "server":
+        vc.ensure("server_error.reaches_the_client_unless_it_already_failed", len(to_client) == (0 if cstate == "state_errored" else 1) and all(x[0] is ev for x in to_client))
+    else:
+        vc.ensure("client_error.not_echoed_to_the_client", to_client == [])
+    vc.ensure("flow_is_over", vc.eq(flow_.live, False))
+    vc.ensure("own_id_unchanged", vc.eq(stream.stream_id, MY_ID))
+
+
 # =============================================================================================
 # T2 (bounded)
 
@@ -1024,6 +1094,9 @@ CLIENT_SEQS = {
     "H.D.D.T": [("H", False), ("D", False), ("D", False), ("T",)],
     "H.R": [("H", False), ("R",)],
     "H.D.R": [("H", False), ("D", False), ("R",)],
+    # cancel after the request is complete (it has been, or is about to be, forwarded upstream)
+    "HE.R": [("H", True), ("R",)],
+    "H.De.R": [("H", False), ("D", True), ("R",)],
 }
 SERVER_SHAPES = ["He", "H.De", "H.D.T", "R"]
 
@@ -1287,6 +1360,17 @@ def check_world(b, spec, obs):
         else:
             if not body.startswith(m["body"]) or m["trailers"]:
                 b.fail("upstream.body_and_trailers_of_own_stream", inp, f"reset request {k}: upstream got body {m['body']!r} trailers {m['trailers']}")
+    # a cancel travels to the upstream stream of the cancelled request and to no other
+    for u, m in obs["server_requests"].items():
+        tag = dict(m["headers"] or []).get(b"x-id")
+        if tag is None:
+            continue
+        k = int(tag)
+        _, _, was_reset = expected_request(k, spec["seqs"][k - 1] if k else None)
+        if m["reset"] is not None and not was_reset:
+            b.fail("upstream.only_cancelled_streams_are_reset", inp, f"upstream stream {u} (request {k}) was reset although its client stream was not cancelled")
+        if was_reset and m["reset"] is None and not (u in obs["answered"]):
+            b.fail("upstream.cancel_reaches_the_upstream_stream", inp, f"request {k} was cancelled by the client; its upstream stream {u} was neither reset nor answered")
     for k in range(0, n + 1):
         body, trailers, reset = expected_request(k, spec["seqs"][k - 1] if k else None)
         if not reset and k not in by_tag:
@@ -1476,6 +1560,25 @@ def check_flow_world(b, params):
             b.fail("flow.every_stream_ends", inp, f"/{tag}: ended={got['ended']} reset={got['reset']}")
 
 
+def _crossed_cancel_specs():
+    """client ids and upstream ids crossed, then the client cancels a request that was already forwarded: request 1 (client stream 3)
+    is still uploading while request 2 (client stream 5) completes and is forwarded first (upstream 3); request 1 follows (upstream 5);
+    with a third request in some variants. The cancelled stream's *upstream* id equals another live stream's *client* id."""
+    out = []
+    for seqs, order in (
+        (["H.De", "HE.R"], [(0, ("H", False)), (1, ("H", True)), (0, ("D", True)), (1, ("R",))]),
+        (["H.D.E", "HE.R"], [(0, ("H", False)), (1, ("H", True)), (0, ("D", False)), (0, ("E",)), (1, ("R",))]),
+        (["H.De", "H.De.R"], [(0, ("H", False)), (1, ("H", False)), (1, ("D", True)), (0, ("D", True)), (1, ("R",))]),
+        (["H.De", "HE.R", "HE"], [(0, ("H", False)), (1, ("H", True)), (2, ("H", True)), (0, ("D", True)), (1, ("R",))]),
+        (["H.De", "HE", "HE.R"], [(0, ("H", False)), (1, ("H", True)), (2, ("H", True)), (0, ("D", True)), (2, ("R",))]),
+        (["H.D.D.T", "HE.R"], [(0, ("H", False)), (0, ("D", False)), (1, ("H", True)), (0, ("D", False)), (0, ("T",)), (1, ("R",))]),
+    ):
+        for shapes in (["He"], ["H.De"], ["H.D.T"]):
+            for ms in (None, 2):
+                out.append(dict(max_streams=ms, seqs=seqs, order=order, settings_at=None, cuts=(), flush_each=True, resp_shapes=shapes * 4, resp_order=[0, 0, 0, 0]))
+    return out
+
+
 def bounded(tier, seed):
     import itertools
     import random
@@ -1513,7 +1616,8 @@ def bounded(tier, seed):
                               resp_shapes=[rnd.choice(SERVER_SHAPES) for _ in range(4)], resp_order=[rnd.randrange(4) for _ in range(4)]))
         if len(specs) >= budget:
             break
-    for spec in specs[:budget]:
+    specs = _crossed_cancel_specs() + specs[:budget]
+    for spec in specs:
         b.case(repr(spec), nontrivial=len(spec["seqs"]) >= 2)
         try:
             obs = run_world(spec)
